@@ -20,6 +20,9 @@ DATA_OPS = [
     {"op": "increment", "k": "cnt", "n": 1},
     {"op": "remove", "k": "k1"},
     {"op": "remove", "k": "nokey"},
+    {"op": "increment", "k": "k2", "n": 0},       # not a no-op: the version advances
+    {"op": "increment", "k": "fresh", "n": 0},    # creates the key with value 0
+    {"op": "increment", "k": "k2", "n": -12},
 ]
 ADMIN_OPS = [
     {"op": "create-user", "u": "u1", "v": "ut", "k": "$$user_u1"},
@@ -86,6 +89,8 @@ MODEL_OPS = [
     {"op": "set", "k": "k", "v": "c", "ver": 0},      # versioned, stale
     {"op": "increment", "k": "c", "n": 2},
     {"op": "remove", "k": "k"},
+    {"op": "increment", "k": "c", "n": 0},
+    {"op": "increment", "k": "z", "n": 0},            # a key that does not exist yet
 ]
 
 
